@@ -352,6 +352,10 @@ func genDiffWorld(r *rand.Rand, c *CliCase, l Layout, vmode int) {
 	cmd.Src = c.Files[0].Rel
 	if glob {
 		cmd.Src = "d/f*.wsp"
+	} else if chance(r, 0.15) {
+		// explicit destination name
+		cmd.Dest = "e/other name.wsp"
+		c.Files[1].Rel = cmd.Dest
 	}
 	genWindow(r, l, &cmd)
 	if chance(r, 0.06) && c.EnvFault == "" {
